@@ -17,6 +17,23 @@ fn main() {
         println!("invariants ok");
         return;
     }
+    if std::env::args().nth(1).as_deref() == Some("--run") {
+        // real-process mode: argv[2] = grammar, parsing happens on the OS argument vector through
+        // OptionParser::run(); to keep argv[0..3] out of the way the process re-executes itself with
+        // the remaining arguments (see --run-inner below)
+        let g = std::env::args().nth(2).unwrap();
+        let exe = std::env::current_exe().unwrap();
+        use std::os::unix::process::CommandExt;
+        let err = std::process::Command::new(exe).arg0(format!("app-{}", g)).args(std::env::args_os().skip(3)).env("VHARNESS_RUN", g).exec();
+        panic!("exec failed: {err}");
+    }
+    if let Ok(g) = std::env::var("VHARNESS_RUN") {
+        match vharness::run_real(&g) {
+            Some(v) => println!("VALUE\t{}", v),
+            None => println!("unknown-grammar"),
+        }
+        return;
+    }
     std::panic::set_hook(Box::new(|_| {}));
     let stdin = std::io::stdin();
     for line in stdin.lock().lines() {
